@@ -19,6 +19,13 @@ C03) JOBS="ops:3" ;;
 C05) JOBS="ops:4 ops:5" ;;
 C14) JOBS="ops:6" ;;
 C19) JOBS="ops:7" ;;
+C08) JOBS="ops:8" ;;
+C09) JOBS="ops:9" ;;
+C10) JOBS="ops:10" ;;
+C11) JOBS="ops:11" ;;
+C12) JOBS="ops:12" ;;
+C15) JOBS="ops:13 ops:14" ;;
+C16) JOBS="ops:15 ops:16" ;;
 *) exit 0 ;;
 esac
 cd /verif/harness || exit 2
@@ -44,6 +51,9 @@ for job in $JOBS; do
         case "$sel" in
         0) subname=graph/history ;; 1) subname=stable/history ;; 2) subname=matrix/history ;; 3) subname=graphmap/history ;;
         4) subname=csr/history ;; 5) subname=list/history ;; 6) subname=acyclic/history ;; 7) subname=unionfind/history ;;
+        8) subname=traversal/walkers+dfsvisit ;; 9) subname=connectivity/all ;; 10) subname=shortest/nonneg ;;
+        11) subname=negcost/general ;; 12) subname=mst/kruskal+prim ;; 13) subname=matching/validity+maximum ;;
+        14) subname=flow/ford_fulkerson ;; 15) subname=dominators/simple_fast ;; 16) subname=articulation_points/brute ;;
         esac
         # starting corpus: 96 histories drawn from the proptest strategy (encoded with pgcheck::fuzzde) + the empty input
         VERIF_SEED=$SEED /verif/harness/target/release/pgcheck fuzz-seeds "$base" "$ID" "$subname" 96 2>/dev/null || exit 2
